@@ -5,12 +5,28 @@ misses, all checks); store under /verif/seeded/<ID>-<A|B>/.  usage: ingest_agent
 import json, os, shutil, subprocess, sys
 pid = sys.argv[1]
 run_all = "--all" in sys.argv
-rnd = "2" if "--round2" in sys.argv else ""
+rnd = "2" if "--round2" in sys.argv else ("3" if "--round3" in sys.argv else "")
 src = f"/tmp/mut{rnd}_{pid}"
-NAMES = {"A": "C", "B": "D"} if rnd else {"A": "A", "B": "B"}
+NAMES = {"": {"A": "A", "B": "B"}, "2": {"A": "C", "B": "D"}, "3": {"A": "E"}}[rnd]
 here = os.path.dirname(os.path.abspath(__file__))
 notes = open(os.path.join(src, "NOTES.md")).read() if os.path.exists(os.path.join(src, "NOTES.md")) else ""
-for X in ("A", "B"):
+def demo_rc_with(part):
+    """exit status of the demo with only `part` applied (round 3: each edit alone must be harmless)"""
+    import tempfile
+    sc = tempfile.mkdtemp(prefix="vfpart_", dir="/dev/shm")
+    try:
+        shutil.copytree("/repo/src", os.path.join(sc, "src"))
+        p = subprocess.run(["patch", "-p1", "-s", "-d", sc, "-i", part], capture_output=True, text=True)
+        if p.returncode != 0:
+            return "patch-failed"
+        d = subprocess.run(["/venv/bin/python", os.path.join(src, "demoA.py")], capture_output=True, text=True, cwd=sc,
+                           env=dict(os.environ, PYTHONPATH=os.path.join(sc, "src"), PYTHONDONTWRITEBYTECODE="1"))
+        return d.returncode
+    finally:
+        shutil.rmtree(sc, ignore_errors=True)
+
+
+for X in NAMES:
     patch, demo = os.path.join(src, f"mutation{X}.diff"), os.path.join(src, f"demo{X}.py")
     if not os.path.exists(patch):
         print(pid, X, "no patch"); continue
@@ -46,6 +62,15 @@ for X in ("A", "B"):
         "all_checks_quick": {k: {"rc": v["rc"], "keys": v["keys"][:3]} for k, v in allres["props"].items()} if allres else None,
         "caught_by": (allres or r).get("caught_by"),
     }
+    if rnd == "3":
+        meta["origin"] += " (round 3: two cooperating edits, each harmless alone)"
+        parts = {}
+        for part in ("part1.diff", "part2.diff"):
+            pp = os.path.join(src, part)
+            if os.path.exists(pp):
+                shutil.copy(pp, os.path.join(dst, part))
+                parts[part] = {"demo_rc_alone": demo_rc_with(pp)}
+        meta["parts"] = parts
     json.dump(meta, open(os.path.join(dst, "meta.json"), "w"), indent=1)
     print(f"{pid}-{Y}: tests[{r.get('pytest','')[:20]} | {r.get('unittest_Tdf','')}] demo clean/mut={r.get('demo_clean_rc')}/{r.get('demo_with_mutation_rc')} "
           f"target rc={r['props'].get(pid,{}).get('rc')} keys={r['props'].get(pid,{}).get('keys',[])[:3]} caught_by={meta['caught_by']}")
